@@ -91,6 +91,11 @@ package openapi3filter
 //@   modifies nothing
 //@   ensures [text-before-the-parameters] result == mediaTypeOf(contentType)
 //@   tag C06 C08 C10
+// (RegisterBodyDecoder refuses a nil decoder: every registered decoder can be called)
+//@ global mapvalues-nonnil bodyDecoders
+//@ func RegisterBodyDecoder
+//@   requires contentType != "" && decoder != nil
+//@   modifies *
 //@ spec decoderAccepts(h http.Header, s *openapi3.SchemaRef) bool
 //@ fnfield BodyDecoder (body, header, schema, encFn)
 //@   modifies *
@@ -102,5 +107,5 @@ package openapi3filter
 //@   ensures @C06 [decoder-decides] old(has(bodyDecoders, mediaTypeOf(headerGet(header, headerCT)))) ==> ((result.2 == nil) <==> decoderAccepts(header, schema))
 //@   ensures @C06 [media-type-reported] result.2 == nil ==> result.0 == mediaTypeOf(headerGet(header, headerCT))
 //@   ensures @C06 [error-carries-nothing] result.2 != nil ==> result.0 == "" && result.1 == nil
-//@   option safety-tags none
+//@   option safety-tags C10
 //@   tag C06
